@@ -28,6 +28,7 @@ import (
 	"reflect"
 	"sort"
 	"strings"
+	"sync"
 	"time"
 	_ "time/tzdata"
 	"unicode"
@@ -198,23 +199,31 @@ var hangProbes = []string{"1e300000000", "1E999999999", "1e-300000000", "0.1e214
 
 const probeEnv = "VERIF_C15_PROBE"
 
-// worker: evaluate `tickets <op> <literal>` against a fixed contact and print the outcome
+// worker: evaluate `tickets <op> <literal>` against a fixed contact, or (text "stored:<number>") `age > 5` against a
+// contact read from JSON whose number field age holds <number>; prints the outcome
 func probeWorker(text string) {
 	env := envs.NewBuilder().Build()
-	q, err := contactql.ParseQuery(env, text, nil)
+	sa, err := engine.NewSessionAssets(env, mustSource(`{"fields":[{"uuid":"f0000000-0000-4000-8000-000000000000","key":"age","name":"Age","type":"number"}]}`), nil)
+	if err != nil {
+		panic(err)
+	}
+	fields := ""
+	if num, ok := strings.CutPrefix(text, "stored:"); ok {
+		fields = `, "fields": {"age": {"text": "x", "number": ` + num + `}}`
+		text = "age > 5"
+	}
+	c, err := flows.ReadContact(sa, []byte(`{"uuid": "c0000000-0000-4000-8000-000000000000", "status": "active", "created_on": "2020-01-01T00:00:00Z"`+fields+`}`), assets.IgnoreMissing)
+	if err != nil {
+		fmt.Println("rejected (contact)")
+		return
+	}
+	resolver := &myResolver{fields: sa.Fields()}
+	q, err := contactql.ParseQuery(env, text, resolver)
 	if err != nil {
 		fmt.Println("rejected")
 		return
 	}
-	sa, err := engine.NewSessionAssets(env, mustSource(`{}`), nil)
-	if err != nil {
-		panic(err)
-	}
-	c, err := flows.ReadContact(sa, []byte(`{"uuid": "c0000000-0000-4000-8000-000000000000", "status": "active", "created_on": "2020-01-01T00:00:00Z"}`), assets.IgnoreMissing)
-	if err != nil {
-		panic(err)
-	}
-	fmt.Println("evaluated:", contactql.EvaluateQuery(env, mkQuery(q.Root(), &myResolver{fields: sa.Fields()}), c))
+	fmt.Println("evaluated:", contactql.EvaluateQuery(env, q, c))
 }
 
 func mustSource(j string) *static.StaticSource {
@@ -235,34 +244,58 @@ func runHangProbes(res *hx.Result, r *hx.Rand) {
 	for i := 0; i < 3; i++ {
 		probes = append(probes, fmt.Sprintf("%de%s%d", 1+r.Intn(9), hx.Pick(r, []string{"", "-"}), 300000000+r.Intn(1500000000)))
 	}
+	type probe struct{ text, class string }
+	var ps []probe
 	for _, lit := range probes {
-		text := "tickets " + hx.Pick(r, []string{">", "<", "=", "!=", ">=", "<="}) + " " + lit
-		cmd := exec.Command(exe)
-		cmd.Env = append(os.Environ(), probeEnv+"="+text)
-		type outT struct {
-			b   []byte
-			err error
-		}
-		done := make(chan outT, 1)
-		if err := cmd.Start(); err != nil {
-			res.Fail("harness:probe-start", text, err.Error())
-			continue
-		}
-		go func() { err := cmd.Wait(); done <- outT{nil, err} }()
-		res.OracleChecks++
-		res.Eval("probe/"+text, true)
-		select {
-		case o := <-done:
-			if o.err != nil {
-				res.Fail("panic:eval:number-literal-huge-exponent", map[string]any{"query_text": text}, "the worker evaluating the query died: "+o.err.Error())
-			} else {
-				res.Dist("hang-probe:returned")
+		ps = append(ps, probe{"tickets " + hx.Pick(r, []string{">", "<", "=", "!=", ">=", "<="}) + " " + lit, "number-literal-huge-exponent"})
+	}
+	for _, num := range []string{"1e300000000", `"1E+400000000"`, "5e-300000000", fmt.Sprintf("1e%d", 300000000+r.Intn(1500000000))} {
+		ps = append(ps, probe{"stored:" + num, "contact-number-huge-exponent"})
+	}
+	// four workers at a time; outcomes recorded in probe order
+	type outcome struct {
+		hung bool
+		err  error
+	}
+	outs := make([]outcome, len(ps))
+	sem := make(chan struct{}, 4)
+	var wg sync.WaitGroup
+	for i, pr := range ps {
+		wg.Add(1)
+		go func(i int, text string) {
+			defer wg.Done()
+			sem <- struct{}{}
+			defer func() { <-sem }()
+			cmd := exec.Command(exe)
+			cmd.Env = append(os.Environ(), probeEnv+"="+text)
+			if err := cmd.Start(); err != nil {
+				outs[i] = outcome{err: err}
+				return
 			}
-		case <-time.After(25 * time.Second):
-			cmd.Process.Kill()
-			<-done
-			res.Fail("hang:eval:number-literal-huge-exponent", map[string]any{"query_text": text, "contact": "tickets = 0"},
-				fmt.Sprintf("%q passes ParseQuery, EvaluateQuery had not returned after 25 s (worker killed)", text))
+			done := make(chan error, 1)
+			go func() { done <- cmd.Wait() }()
+			select {
+			case err := <-done:
+				outs[i] = outcome{err: err}
+			case <-time.After(15 * time.Second):
+				cmd.Process.Kill()
+				<-done
+				outs[i] = outcome{hung: true}
+			}
+		}(i, pr.text)
+	}
+	wg.Wait()
+	for i, pr := range ps {
+		res.OracleChecks++
+		res.Eval("probe/"+pr.text, true)
+		switch {
+		case outs[i].hung:
+			res.Fail("hang:eval:"+pr.class, map[string]any{"probe": pr.text},
+				fmt.Sprintf("probe %q (a query text against a contact without tickets, or `age > 5` against a contact read from JSON with the stored number): accepted, EvaluateQuery had not returned after 15 s (worker killed)", pr.text))
+		case outs[i].err != nil:
+			res.Fail("panic:eval:"+pr.class, map[string]any{"probe": pr.text}, "the worker evaluating the probe died: "+outs[i].err.Error())
+		default:
+			res.Dist("hang-probe:returned")
 		}
 	}
 }
